@@ -127,8 +127,8 @@ PROPS = {
     'C20': dict(
         families=['json'], reports=['json'],
         reference_reports={'json': 'the model token map is proved to emit exactly the mirroring stream of the document (c20_mirror), the literal conversions are proved exact (c20_literal_*), and unmarshalling the mirroring stream is proved to compute the reference decoding of the document, which the jdec cases compare with the real encoding/json (c20_unmarshal_is_reference_decoding): a different stream, value or outcome on a document is a failure of the property on that document'},
-        proof_files=['Proofs/JsonP.v', 'Proofs/JsonDecodeP.v'],
-        theorems='c20_mirror, c20_mirror_map, c20_several_documents, c20_truncated, c20_truncated_document, c20_mirror_wf, c20_literal_int_range, c20_literal_uint_range, c20_literal_not_int, c20_unmarshal_is_reference_decoding, c20_document_into_zero_target, c20_reference_decoding_total, c20_unknown_member_skipped',
+        proof_files=['Proofs/JsonP.v', 'Proofs/JsonDecodeP.v', 'Proofs/JsonLawsP.v'],
+        theorems='c20_mirror, c20_mirror_map, c20_several_documents, c20_truncated, c20_truncated_document, c20_mirror_wf, c20_literal_int_range, c20_literal_uint_range, c20_literal_not_int, c20_unmarshal_is_reference_decoding, c20_document_into_zero_target, c20_reference_decoding_total, c20_unknown_member_skipped, c20_object_member_order, c20_unknown_member_changes_nothing, c20_strict_unknown_member_rejected',
         assumptions=['encoding/json\'s tokenizer (Decoder.Token with UseNumber) is a contract: json_tokens',
                      'the reference decoding semantics jdec (Spec/JsonDecode.v, by recursion on the document) is tied to the real encoding/json by correspondence on every generated (document, target) pair of this run - not by proof; it is tied to sb.Unmarshal by theorem (unm (mirror j) = jdec j, success and failure) plus the unmarshal correspondence',
                      'strconv.ParseFloat is a parameter (table of the literals of each case)',
